@@ -68,7 +68,7 @@ PROP = {'lean_props': ['Comrak.Props.C06'],
                   'for trees without footnote definitions; heading anchors are bounded by hypothesis'],
  'assumptions': ['growth is judged between the two largest sizes of each family (log-log slope <= 1.25 + 0.10), output against 160 n + 4096 bytes']}
 
-TEXT = {'text_added': 'The caps the property names are observed on the tree: table cells at most those in the source + 500 000 + one row (and HTML within 160 n + 4096 + 12 bytes per capped cell), list nesting at most 100 for up to 3000 markers on one line, reference expansion at most max(100 000, input); families prefix^n a (LF)^n for the container markers are in the step-counter and instruction-count stages.',
+TEXT = {'text_added': 'The caps the property names are observed on the tree: table cells at most those in the source + 500 000 + one row (and HTML within 160 n + 4096 + 12 bytes per capped cell), list nesting at most 100 for up to 3000 markers on one line, reference expansion at most max(100 000, input); families prefix^n a (LF)^n for the container markers are in the step-counter and instruction-count stages. Reference expansion is also observed with the uses spread over hundreds of paragraphs and headings (the budget is the document\'s).',
  'text': 'Proof (partial). Lean proves: escape and escape_href write at most 6 bytes per input byte; the backtick scanner with its positional memo, as '
          'implemented, takes at most 3n counted steps over a whole inline text (a memo entry ahead of the current position always points at a run '
          'that is still ahead, so after the first scan that runs to the end no scan fails again); process_emphasis, as the code is since /repo commits 9704a60 and e31def4 (42 openers_bottom slots - six per '
